@@ -1,7 +1,8 @@
 """E3: single-deviation enumeration (DESIGN.md section 3.5).
 
 Every user callback the engine can reach goes through `FAULT.point(name)`.  The default answer is
-"behave"; a deviation is "raise a unique exception instance at the k-th invocation".  For each
+"behave"; a deviation is "raise a unique exception instance (of one of a menu of exception types, incl. the
+builtin types library code commonly catches) at the k-th invocation".  For each
 (operation, scenario) the zero-deviation run counts the K invocations, then every k = 1..K is
 executed with exactly one deviation, to completion.
 """
@@ -20,9 +21,10 @@ class Injector:
     def __init__(self):
         self.reset()
 
-    def reset(self, k=None):
+    def reset(self, k=None, exc=None):
         self.count = 0
         self.k = k
+        self.exc = exc or Boom
         self.injected = None
         self.log = []
         self.enabled = True
@@ -33,7 +35,7 @@ class Injector:
         self.count += 1
         self.log.append(name)
         if self.k is not None and self.count == self.k:
-            self.injected = Boom(f'{name}#{self.k}')
+            self.injected = self.exc(f'{name}#{self.k}')
             raise self.injected
 
 
@@ -44,10 +46,10 @@ def refcounts(objs):
     return [sys.getrefcount(o) for o in objs]
 
 
-def run_with_fault(op, k):
-    """Run op() with a fault at the k-th callback invocation (k=None: none).
-    Returns (kind, value): ('ok', result) | ('exc', exception)."""
-    FAULT.reset(k)
+def run_with_fault(op, k, exc=None):
+    """Run op() with a fault at the k-th callback invocation (k=None: none); the fault is a fresh instance of
+    `exc` (default Boom).  Returns (kind, value): ('ok', result) | ('exc', exception)."""
+    FAULT.reset(k, exc)
     try:
         return 'ok', op()
     except BaseException as ex:  # noqa: BLE001
